@@ -249,6 +249,8 @@ class Session:
         import types
 
         sent = []
+        session = self
+        n0 = len(self.server.calls)
 
         class _WS:
             def __init__(self):
@@ -260,6 +262,13 @@ class Session:
                 if m.get("type") == "connection_init":
                     self.queue.append(json.dumps({"type": "connection_ack"}))
                 elif m.get("type") == "subscribe":
+                    # one event: what the reference server answers for the subscription document, then complete
+                    try:
+                        status, resp = session._respond(m.get("payload") or {}, None)
+                    except Exception:  # noqa: BLE001
+                        resp = None
+                    if isinstance(resp, dict) and resp.get("data") is not None and not resp.get("errors"):
+                        self.queue.append(json.dumps({"type": "next", "id": m.get("id"), "payload": {"data": resp["data"]}}))
                     self.queue.append(json.dumps({"type": "complete", "id": m.get("id")}))
 
             async def recv(self):
@@ -306,6 +315,12 @@ class Session:
         finally:
             for mod, orig in patched:
                 mod.ws_connect = orig
+        if len(self.server.calls) > n0:
+            out["rec"] = self.server.calls[n0]
+        if isinstance(out["value"], list):
+            # callers treat the result like the value of a query method: the single event (None when there was none)
+            out["events"] = out["value"]
+            out["value"] = out["value"][0] if out["value"] else None
         sub = [m for m in sent if m.get("type") == "subscribe"]
         if sub:
             out["request"] = types.SimpleNamespace(content=json.dumps(sub[0].get("payload") or {}).encode(), frames=sent)
